@@ -51,6 +51,15 @@ class _BlockInterp(Evaluator):
     def ev_List(self, node):
         return Opaque("list", [self.ev(e) for e in node.elts])
 
+    def ev_BinOp(self, node):
+        if isinstance(node.op, ast.Add):
+            a, b = self.ev(node.left), self.ev(node.right)
+            if isinstance(a, Opaque) and isinstance(b, Opaque) and a.tag == "list" and b.tag == "list":
+                return Opaque("list", list(a.payload) + list(b.payload))
+            from ..nf import v_add
+            return v_add(a, b)
+        return super().ev_BinOp(node)
+
 
 def _run_block_body(stmts, it):
     for s in stmts:
@@ -72,7 +81,10 @@ def _run_block_body(stmts, it):
             lst = it.env[s.value.func.value.id]
             lst.payload.append(it.ev(s.value.args[0]))
         elif isinstance(s, ast.Assign) and isinstance(s.targets[0], ast.Subscript) and dotted(s.targets[0].value) == "self.blocks_dict":
-            it.stored = it.ev(s.value) if isinstance(s.value, ast.Name) else None
+            try:
+                it.stored = it.ev(s.value)
+            except (AnalysisError, SortError):
+                it.stored = None
             it.stored_key = src(s.targets[0].slice)
         elif isinstance(s, ast.Assert):
             continue
@@ -156,31 +168,35 @@ def r_ortho(ctx):
         return
     add = adds[0]
     st = common.stmt_of(add)
-    loops = []
-    cur = st
-    while True:
-        lp = flow.in_loop(cur)
-        if lp is None:
-            break
-        loops.insert(0, lp)
-        cur = lp
+    gens = flow.loop_generators(st, fn)
+    if gens is None:
+        raise AnalysisError("BlockPartition.add_partition_constraints: loop nest outside the analysed fragment")
+    loop_nodes = []
+    for g0 in gens:
+        if g0[2] not in loop_nodes:
+            loop_nodes.append(g0[2])
     conds = flow.conditions_guarding(st)
     early = [s for s in flow.stmts_of(fn) if isinstance(s, (ast.Return, ast.Break, ast.Continue))]
-    ok = not conds and not early and all(s is loops[0] or isinstance(s, ast.Pass) for s in fn.body)
+    from ..absint import _pure
+    extra = [s for s in fn.body if not (loop_nodes and s is loop_nodes[0]) and not isinstance(s, ast.Pass)
+             and not (isinstance(s, ast.Assign) and len(s.targets) == 1 and isinstance(s.targets[0], ast.Name) and _harmless(s.value))]
+    ok = not conds and not early and not extra
     ctx.ob("R-ORTHO", "BlockPartition.add_partition_constraints::unconditional", ok,
            "the relations are generated unconditionally at every call" if ok else
            "generation is conditional (%s): some relations between blocks are not imposed" % ("; ".join(src(t) for t, _, _ in conds) or "early exit / extra statements"), loc(fn, fn))
-    pl = [l for l in loops if dotted(l.iter.func.value if isinstance(l.iter, ast.Call) and call_name(l.iter) == "values" else l.iter) == "self.blocks_dict"
-          and isinstance(l.iter, ast.Call) and call_name(l.iter) == "values"]
-    rl = [l for l in loops if isinstance(l.iter, ast.Call) and call_name(l.iter) == "range"]
-    okp = len(pl) == 2 and len(rl) == 2 and len(loops) == 4
+
+    def is_values(e):
+        return isinstance(e, ast.Call) and call_name(e) == "values" and dotted(e.func.value) == "self.blocks_dict"
+    pl = [g0 for g0 in gens if is_values(g0[1])]
+    rl = [g0 for g0 in gens if isinstance(g0[1], ast.Call) and call_name(g0[1]) == "range"]
+    okp = len(pl) == 2 and len(rl) == 2 and len(gens) == 4 and all(g0[0] for g0 in gens)
     ctx.ob("R-ORTHO", "BlockPartition.add_partition_constraints::all points x all points", okp,
            "two loops over all decomposed points (full cross product) and two over block indices" if okp else
-           "loop nest is %s" % [src(l.iter) for l in loops], loc(fn, loops[0] if loops else fn))
+           "loop nest is %s" % [src(g0[1]) for g0 in gens], loc(fn, loop_nodes[0] if loop_nodes else fn))
     if not okp:
         return
-    a, b = pl[0].target.id, pl[1].target.id
-    k, l = rl[0].target.id, rl[1].target.id
+    a, b = pl[0][0], pl[1][0]
+    k, l = rl[0][0], rl[1][0]
     # body: A[k] * B[l] == 0
     arg = add.args[0]
     okb = isinstance(arg, ast.Compare) and isinstance(arg.ops[0], ast.Eq) and is_const(arg.comparators[0], 0) and isinstance(arg.left, ast.BinOp) \
@@ -198,18 +214,28 @@ def r_ortho(ctx):
     for d in (1, 2, 3, 4):
         pairs = []
         try:
-            for kv in _range_vals(rl[0].iter, {"d": d}):
-                for lv in _range_vals(rl[1].iter, {"d": d, k: kv}):
+            for kv in _range_vals(rl[0][1], {"d": d}):
+                for lv in _range_vals(rl[1][1], {"d": d, k: kv}):
                     pairs.append((kv, lv))
         except AnalysisError as e:
-            ctx.ob("R-ORTHO", "BlockPartition.add_partition_constraints::block pairs d=%d" % d, False, str(e), loc(fn, rl[0]))
+            ctx.ob("R-ORTHO", "BlockPartition.add_partition_constraints::block pairs d=%d" % d, False, str(e), loc(fn, rl[0][2]))
             continue
         want = {frozenset((x, y)) for x in range(d) for y in range(d) if x != y}
         got = [frozenset(p) for p in pairs]
         ok = all(len(p) == 2 for p in got) and set(got) == want and len(got) == len(set(got))
         ctx.ob("R-ORTHO", "BlockPartition.add_partition_constraints::block pairs d=%d" % d, ok,
                "every unordered pair of distinct blocks exactly once (%d pairs)" % len(want) if ok else
-               "block index pairs %s; expected every unordered pair of distinct blocks of range(%d) exactly once and no pair (k, k)" % (sorted(pairs), d), loc(fn, rl[0]))
+               "block index pairs %s; expected every unordered pair of distinct blocks of range(%d) exactly once and no pair (k, k)" % (sorted(pairs), d), loc(fn, rl[0][2]))
+
+
+def _harmless(e):
+    """a local bound to a view / range / list of index tuples: no effect, nothing generated"""
+    for n in ast.walk(e):
+        if isinstance(n, ast.Call) and call_name(n) not in ("values", "keys", "items", "range", "len", "get_nb_blocks", "list", "tuple", "product", "combinations"):
+            return False
+        if isinstance(n, (ast.Lambda, ast.Await, ast.Yield, ast.NamedExpr)):
+            return False
+    return True
 
 
 def _range_vals(call, env):
